@@ -384,6 +384,11 @@ EVENTS = {
 }
 
 
+CACHED_STATES = ('SUCCESSFUL', 'FAILED', 'INPROGRESS')
+CACHE_KEYS = ('pre-merge', 'github_actions')
+CACHE_SHAS = ('abcdef12', 'abc123')
+
+
 def hook_cells(hook_rules):
     for route in hook_rules:
         for method in METHODS:
@@ -393,6 +398,12 @@ def hook_cells(hook_rules):
                         for ev in EVENTS:
                             yield {'kind': 'hook', 'route': route, 'method': method, 'creds': creds,
                                    'repo': repo, 'host': host, 'event': ev}
+                            # what the build-status cache already holds for the commit of the event must not
+                            # decide whether the delivery becomes a job (only what is answered later, C17)
+                            if method == 'POST' and creds == 'right' and repo == 'match' and host in route:
+                                for cached in CACHED_STATES:
+                                    yield {'kind': 'hook', 'route': route, 'method': method, 'creds': creds,
+                                           'repo': repo, 'host': host, 'event': ev, 'cached': cached}
 
 
 SEEDS = ['development/4.3', 'stabilization/4.3.1', 'hotfix/10.0.12', 'development/12.0', 'abc123', 'DEADbeef00', '']
@@ -499,6 +510,12 @@ def hook_payload(cell):
 def run_hook(w, cell):
     from bert_e.git_host.cache import BUILD_STATUS_CACHE
     BUILD_STATUS_CACHE.clear()
+    if cell.get('cached'):
+        from types import SimpleNamespace
+        for key in CACHE_KEYS:
+            for sha in CACHE_SHAS:
+                BUILD_STATUS_CACHE[key].set(sha, SimpleNamespace(state=cell['cached'], key=key, url='http://ci/0',
+                                                                 description='', commit=sha))
     w.berte.settings.repository_host = cell['host']
     ev = EVENTS[cell['event']]
     StubGitHubClient.runs = ev[3] if len(ev) > 3 else []
